@@ -524,6 +524,12 @@ DIVERSITY = {
 
 HOWS = ("ctor", "ctor-label", "copy-before-def", "def-then-copy", "append-twice", "static-none", "static-ints",
         "static-qubit-objs", "static-register")
+# flag-form pass: BlackBoxInitialize(params, label=None) / initialize(q_circuit, state, qubits=None) have NO boolean option
+# and no numeric option; the arguments with a valid falsy value are the label ('' must be kept, None = default 'BBSP', both
+# by keyword and positionally) and `qubits` (None given explicitly, by keyword and positionally); zero amplitudes in every
+# numeric form (int 0, 0.0, -0.0, 0j, numpy zeros) are the vector families of sections 1-2 and the boundary pass.
+FALSY_HOWS = ("ctor-label-empty", "ctor-label-empty-pos", "ctor-label-none", "ctor-label-none-pos", "static-qubits-none",
+              "static-qubits-none-pos")
 
 
 def build_how(raw, how, wires=None):
@@ -535,6 +541,22 @@ def build_how(raw, how, wires=None):
         return BlackBoxInitialize(raw).definition, None, None
     if how == "ctor-label":
         return BlackBoxInitialize(raw, label="div").definition, None, None
+    if how in FALSY_HOWS[:4]:
+        lab = "" if "empty" in how else None
+        g = BlackBoxInitialize(raw, lab) if how.endswith("-pos") else BlackBoxInitialize(raw, label=lab)
+        want = "BBSP" if lab is None else lab
+        if g.label != want:
+            raise AssertionError(f"label {lab!r} requested, the gate carries {g.label!r} (expected {want!r})")
+        host = QuantumCircuit(w)
+        host.append(g, list(range(w)))
+        return g.definition, host, list(range(w))
+    if how in FALSY_HOWS[4:]:
+        host = QuantumCircuit(w)
+        if how.endswith("-pos"):
+            BlackBoxInitialize.initialize(host, raw, None)
+        else:
+            BlackBoxInitialize.initialize(host, raw, qubits=None)
+        return host.data[0].operation.definition, host, list(range(w))
     if how == "copy-before-def":              # copied before the definition is built; the original is built afterwards
         g = BlackBoxInitialize(raw)
         g2 = g.copy()
@@ -756,6 +778,21 @@ def _diversity_cases(ctx):
         emit(n, "exactly repeated values (two distinct amplitudes)", clean([a, b] * (N // 2)), ("list-float", "tuple-complex"),
              tag="repeated")
         emit(n, "purely imaginary vector, mixed signs", _unit(1j * r.normal(size=N)), ("list-complex", "nd-complex128"), tag="imag")
+    # nearly (not exactly) equal moduli / nearly equal phases: relative spread 1e-6 .. 5e-6, i.e. inside the default rtol of
+    # np.allclose / np.isclose - a "uniform" or "single phase" shortcut taken with a tolerance shows only here
+    for n in (1, 2, 3, 4):
+        N = 2 ** n
+        u = 1 / math.sqrt(N)
+        for spread in (1e-6, 5e-6):
+            d = np.array([spread * (2 * k / max(1, N - 1) - 1) for k in range(N)])
+            ph = np.exp(1j * r.uniform(0, 2 * math.pi, size=N))
+            emit(n, "nearly equal moduli (relative spread 1e-6 .. 5e-6)", _unit(u * (1 + d) * ph), ("list-complex", "nd-complex128"),
+                 tag=f"nearequal-moduli:{spread:g}")
+            emit(n, "nearly equal moduli, real positive", _unit(u * (1 + d[::-1])), ("list-float", "nd-float64"),
+                 tag=f"nearequal-moduli-real:{spread:g}")
+            amp = np.abs(r.normal(size=N)) + 0.3
+            emit(n, "nearly equal phases (spread 1e-6 .. 5e-6 rad)", _unit(amp * np.exp(1j * (0.7 + d))), ("list-complex", "nd-complex128"),
+                 tag=f"nearequal-phases:{spread:g}")
     # sparse: count of non-zeros << length (1, 2, 3 non-zeros), real-negative and complex
     for n, nnz in ((3, 1), (3, 2), (4, 1), (4, 2), (4, 3), (5, 1), (5, 2), (5, 3), (6, 2)):
         N = 2 ** n
@@ -802,6 +839,14 @@ def _diversity_cases(ctx):
                      tag="callform:real")
             div_case(ctx, n, "every call form", vc, "list-complex" if n % 2 else "nd-complex128", h,
                      wires=_how_wires(rng, h, n + 1), tag="callform:c")
+    # ---- 4b. falsy-but-valid arguments (flag-form pass): label '' / None, qubits None, keyword and positional
+    for n in (1, 2, 3):
+        N = 2 ** n
+        vc = _unit(r.normal(size=N) + 1j * r.normal(size=N))
+        for j, h in enumerate(FALSY_HOWS):
+            ctx.count("flagforms:" + ("label:" if "label" in h else "qubits:") + h)
+            div_case(ctx, n, "falsy valid argument", vc, ("list-complex", "nd-complex128")[(n + j) % 2], h, tag="flagforms:" + h,
+                     tie=(n + j) % 2 == 0)
     # ---- 5. sizes: the round loop runs r = 1, 1, 2, 3, 4, 6 times at n = 1..6 (r = 0 never occurs for a unit vector); a real
     # signed and an integer basis vector at every n
     for n in (4, 5, 6):
